@@ -481,7 +481,26 @@ def rule_subsets(ctx):
         if acts and not (same_curve and wanted):
           sel.append("a model is used without checking that it is for this curve and for the requested generator (or any generator when none is requested)")
         if not acts and not (other_curve or (same_curve and unwanted)):
-          sel.append("a model is skipped although it is for this curve and generator")
+          # the two reasons may be tested together (`if wrong_curve or wrong_generator: continue`): read the path condition itself
+          def reason(c_, pol_):
+            if not (isinstance(c_, tuple) and c_):
+              return False
+            if c_[0] == "not":
+              return reason(c_[1], not pol_)
+            if c_[0] in ("and", "or"):
+              disj = (c_[0] == "or") == pol_          # or under True / and under False: a disjunction of the (negated) parts
+              parts = [reason(x_, pol_) for x_ in c_[1]]
+              return all(parts) if disj else any(parts)
+            if c_[0] == "cmp" and len(c_) == 4:
+              op = c_[1] if pol_ else {"Eq": "NotEq", "NotEq": "Eq", "In": "NotIn", "NotIn": "In"}.get(c_[1])
+              if op == "NotEq" and isinstance(c_[2], Poly) and isinstance(c_[3], Poly) and {c_[2], c_[3]} == {mc, ct}:
+                return True
+              if op == "NotIn" and isinstance(c_[2], Poly) and c_[2] == lcg and is_lcg_set(c_[3]):
+                return True
+            return False
+          newpc = st_.pc[len(vis["head"].pc):]
+          if not any(reason(c_, pol_) for c_, pol_, nd_ in newpc):
+            sel.append("a model is skipped although it is for this curve and generator")
     sel.append(None)
   if not sel:
     probs.append("no loop over lcg_constants.CONSTANT_FACTORY")
@@ -1064,7 +1083,12 @@ def rule_lattice(ctx):
     for kind, val, st in w.terminals:
       if kind != "return" or not wtable.feasible(st):
         continue
-      eqs = [fc for fc in st.facts if fc[0] == "cmp" and fc[1] == "Eq" and isinstance(fc[2], Poly) and fc[2] == pbias and isinstance(fc[3], (Poly, int)) and as_poly(fc[3]).as_int() is not None]
+      eqs = []
+      for fc in st.facts:
+        if fc[0] == "cmp" and fc[1] == "Eq" and len(fc) == 4:
+          for x_, y_ in ((fc[2], fc[3]), (fc[3], fc[2])):
+            if isinstance(x_, Poly) and x_ == pbias and isinstance(y_, Poly) and y_.as_int() is not None:
+              eqs.append(("cmp", "Eq", x_, y_))
       if len({as_poly(fc[3]).as_int() for fc in eqs}) != 1 or as_poly(eqs[0][3]).as_int() not in byval:
         fams.setdefault("?", []).append("a lattice is returned on a path that does not fix the kind of bias")
         continue
